@@ -61,6 +61,29 @@ def build_filters(spec):
 
 _libc = C.CDLL(None)
 _libc.free.argtypes = [C.c_void_p]
+_libc.malloc.restype = C.c_void_p
+_libc.malloc.argtypes = [C.c_size_t]
+
+
+class Exact:
+    """A heap block of exactly len(data) bytes (malloc of the preloaded ASan runtime: any access past it is reported)."""
+    def __init__(self, data=b"", size=None):
+        self.size = len(data) if size is None else size
+        self.addr = _libc.malloc(max(self.size, 1))
+        if data:
+            C.memmove(self.addr, bytes(data), len(data))
+        self.orig = bytes(data)
+
+    def data(self, n=None):
+        return C.string_at(self.addr, self.size if n is None else n)
+
+    def guards_ok(self):
+        return True
+
+    def free(self):
+        if self.addr:
+            _libc.free(self.addr)
+            self.addr = None
 
 
 def filters_via_string(arr):
@@ -219,7 +242,7 @@ class Bufs:
         return self.ib.guards_ok() and self.ob.guards_ok() and self.ib.data() == self.data
 
 
-def drive(entry, m, bufs, ins, outs, irep=0, orep=0, rec=None, tail=0):
+def drive(entry, m, bufs, ins, outs, irep=0, orep=0, rec=None, tail=0, xw=False):
     """Perform the calls of one plan.  ins: list of chunk sizes; ("S", k) = k starving calls (nothing new, no output
     space).  outs: list of grants.  After the lists: irep bytes per call (0 = all the rest) / orep bytes (0 = all).
     Returns dict(ret, op, tin, calls, problems)."""
@@ -271,14 +294,26 @@ def drive(entry, m, bufs, ins, outs, irep=0, orep=0, rec=None, tail=0):
         avail = fed - ip
         g = min(g, cap - op)
         action = lz.FINISH if fed == n else lz.RUN
-        s.next_in = iaddr + ip; s.avail_in = avail
-        s.next_out = oaddr + op; s.avail_out = g
+        if xw:
+            # exact windows: this call's input and output live in heap blocks of exactly avail_in / avail_out bytes
+            wi = Exact(C.string_at(iaddr + ip, avail)); wo = Exact(size=g)
+            base_i, base_o = wi.addr, wo.addr
+        else:
+            base_i, base_o = iaddr + ip, oaddr + op
+        s.next_in = base_i; s.avail_in = avail
+        s.next_out = base_o; s.avail_out = g
         ti, to = s.total_in, s.total_out
         ret = code(sref, action)
         calls += 1
         uin = avail - s.avail_in; uout = g - s.avail_out
+        if xw:
+            if 0 < uout <= g:
+                C.memmove(oaddr + op, wo.addr, uout)
+            if wi.data() != wi.orig:
+                problems.append("guard")
+            wi.free(); wo.free()
         if uin < 0 or uin > avail or uout < 0 or uout > g or s.total_in != ti + uin or s.total_out != to + uout \
-           or (s.next_in or 0) != iaddr + ip + uin or (s.next_out or 0) != oaddr + op + uout:
+           or (s.next_in or 0) != base_i + uin or (s.next_out or 0) != base_o + uout:
             problems.append("accounting")
             uin = max(0, min(uin, avail)); uout = max(0, min(uout, g))
         ip += uin; op += uout
@@ -400,7 +435,7 @@ def run_subject(sub, budget):
             return dict(ret="INIT_" + lz.retname(m.ret), tin=0, olen=0, dig=dig(b"")), []
         bufs = Bufs(m.data, cap if cap is not None else (sub.get("cap") or max(4096, 12 * len(m.data) + 4096)))
         ins, outs, irep, orep = expand_plan(plan, bufs.n, one["olen"] if one else 0)
-        r = drive(entry, m, bufs, ins, outs, irep, orep, rec, tail)
+        r = drive(entry, m, bufs, ins, outs, irep, orep, rec, tail, xw=bool(plan.get("xw")))
         o = observe(m, bufs, r)
         probs = list(r["problems"])
         if not bufs.intact():
@@ -481,7 +516,7 @@ def run_parse(p):
     use_alloc = p.get("alloc", True)
     alloc = lz.CountingAllocator(fail_at=p.get("fail_at", ())) if use_alloc else None
     ap = alloc.ptr() if alloc is not None else None
-    buf = lz.Buf(len(raw), raw)
+    buf = Exact(raw)
     extra = {}
     if e == "block_header_decode":
         b = lz.Block(); b.version = p.get("version", 1); b.check = p.get("check", 1)
@@ -586,8 +621,9 @@ def run_parse(p):
         rn = lz.retname(ret)
     else:
         raise ValueError(e)
-    if not buf.guards_ok() or buf.data() != raw:
+    if buf.data() != raw:
         extra["guard"] = True
+    buf.free()
     if alloc is not None:
         if alloc.live:
             extra["leak"] = len(alloc.live)
